@@ -11,7 +11,8 @@ RULE = ("payloads of length <= 2 (quick) / <= 3 (thorough) over the adversarial 
         "every position that accepts program-chosen text (string, two-character string, escaped character, variable get/set name, loop "
         "variable, function name, each parameter slot, lambda arity, compressed string/number, code-page number); all raw strings of "
         "length <= 3 (quick) / <= 4 (thorough) over that alphabet; random strings to length 60 over the code page and over arbitrary "
-        "Unicode. Oracle on the real output (when transpile returns and the text parses): every Name / Attribute / keyword / def name is in "
+        "Unicode; backtick strings made of every dictionary-compression code and random code pairs in front of adversarial tails (default "
+        "dict_compress=True, the model carries the regenerated dictionary). Oracle on the real output (when transpile returns and the text parses): every Name / Attribute / keyword / def name is in "
         "the fixed vocabulary (names of the element and modifier templates and of the structure templates) or matches "
         "^(VAR_|_lambda_)[A-Za-z0-9_]*$; every other leaf is a Constant. Correspondence: AST vs the Lean transpiler model. "
         "Non-trivial = distinct program text.")
@@ -98,6 +99,16 @@ def run(ctx, widen=False):
         for t in itertools.product(ADV, repeat=L):
             progs.append("".join(t))
     cp = encoding.codepage
+    # dictionary text is program-determined too: every single compression code, and random pairs, in front of adversarial tails
+    # (transpile's default is dict_compress=True)
+    TAILS = [');zz9(1)#', '"', '\\', 'a"+zz9(1)+"', ' ', '']
+    dprogs = ["`" + c + t + "`" for c in cp for t in TAILS]
+    comp = encoding.compression
+    for _ in range(6000 if thorough else 1200):
+        body = "".join(rng.choice([rng.choice(comp), rng.choice(comp) + rng.choice(comp), rng.choice(ADV), " "]) for _ in range(rng.randint(1, 5)))
+        dprogs.append("`" + body.replace("`", "") + rng.choice(TAILS) + "`")
+    ctx.bump("dictionary-code strings", len(dprogs))
+    progs += dprogs
     nr = 20000 if thorough else 2500
     for _ in range(nr):
         progs.append("".join(rng.choice(cp) for _ in range(rng.randint(1, 60))))
@@ -117,6 +128,8 @@ def run(ctx, widen=False):
     sub = [p for p in progs if not any(c.isdecimal() and not c.isascii() for c in p)]
     sub = sub if thorough else sub[:12000]
     aststream.run_stream(ctx, sub, dict_compress=False)
+    dsub = [p for p in dict.fromkeys(dprogs) if not any(c.isdecimal() and not c.isascii() for c in p)]
+    aststream.run_stream(ctx, dsub, dict_compress=True)
 
 
 def search(ctx):
